@@ -458,9 +458,15 @@ func getRoundMessage(msg *Message, r round.Session) (round.Message, error) {
 	if err := unmarshalContent(msg.Data, content); err != nil {
 		return round.Message{}, fmt.Errorf("failed to unmarshal: %w", err)
 	}
+	// canAccept lets a point-to-point message with an empty To header through ("for everybody"): for the
+	// round it is a message to this party, which looks up its own parameters under msg.To.
+	to := msg.To
+	if to == "" && !msg.Broadcast {
+		to = r.SelfID()
+	}
 	roundMsg := round.Message{
 		From:      msg.From,
-		To:        msg.To,
+		To:        to,
 		Content:   content,
 		Broadcast: msg.Broadcast,
 	}
